@@ -124,7 +124,7 @@ if os.path.exists(bn):
     out += [l.rstrip()[:200] for l in open(bn) if l.startswith(("SILENT", "FALSE-ALARM", "INVALID", "SKIP"))]
 bn2 = os.path.join(R, "seeded", "BENIGN-after-round8.log")
 if os.path.exists(bn2):
-    out += ["```", "", "After the eighth round of seeded changes, against the sixteen checks that were changed in the last session:", "", "```"]
+    out += ["```", "", "After the eighth round of seeded changes, against the sixteen checks that were changed in the last session, and (the last six lines) against the three changed after the ninth partial round:", "", "```"]
     out += [l.rstrip()[:200] for l in open(bn2) if l.startswith(("SILENT", "FALSE-ALARM", "INVALID", "SKIP"))]
 out += ["```", "",
 "### 8.4 Runs on the unchanged tree at the end of the work", "",
